@@ -11,16 +11,16 @@ import (
 )
 
 type FuncReport struct {
-	Fn        string
-	Obls      []*Obligation
-	Trivial   int
-	Paths     int
-	Steps     int
-	Failed    []string
-	Inlined   []string
-	UsedCtr   []string
-	Intrinsic []string
-	HasCtr    bool
+	Fn           string
+	Obls         []*Obligation
+	Trivial      int
+	Paths        int
+	Steps        int
+	Failed       []string
+	Inlined      []string
+	UsedCtr      []string
+	Intrinsic    []string
+	HasCtr       bool
 	TrivialNames map[string]string
 	ClauseProps  map[string][]string
 	FnProps      []string
@@ -61,6 +61,10 @@ func (e *Engine) verifyFunction(fn *ssa.Function, noMerge bool) *FuncReport {
 		noMerge: noMerge, intrUsed: map[string]bool{}, trivialNames: map[string]string{}, clauseProps: map[string][]string{}, ordinals: map[ssa.Instruction]string{}, maxForks: 1500}
 	if noMerge {
 		ex.maxPaths = 400
+		if strings.HasPrefix(fn.Name(), "lemma") {
+			// client lemmas branch over the shapes of the value they build: explore them path by path
+			ex.maxPaths = 4000
+		}
 	}
 	ex.allowPanic = ct != nil && ct.AllowPanic
 	rep := &FuncReport{Fn: ex.rootName, HasCtr: ct != nil}
@@ -285,13 +289,13 @@ func (e *Engine) verifyFunction(fn *ssa.Function, noMerge bool) *FuncReport {
 		ex.guardedRoot(fn, args, st, retK)
 	}()
 	if false {
-	ex.guard(func() {
-		fr := &Frame{fn: fn, regs: map[ssa.Value]Value{}, depth: 0, retK: retK}
-		for i, p := range fn.Params {
-			fr.regs[p] = args[i]
-		}
-		ex.runBlock(fr, fn.Blocks[0], nil, st, map[*ssa.BasicBlock]int{})
-	})
+		ex.guard(func() {
+			fr := &Frame{fn: fn, regs: map[ssa.Value]Value{}, depth: 0, retK: retK}
+			for i, p := range fn.Params {
+				fr.regs[p] = args[i]
+			}
+			ex.runBlock(fr, fn.Blocks[0], nil, st, map[*ssa.BasicBlock]int{})
+		})
 	}
 	rep.Obls = ex.obls
 	rep.Trivial = ex.trivial
